@@ -201,9 +201,16 @@ def check_hassemble(spec, ctx):
 
 @st.composite
 def strat_hassemble(draw, tier="quick"):
-    dims = (1, 2) if tier == "quick" else (1, 1, 2, 2, 3)
-    spec = draw(gh.history(dims=dims, pmin=1, pmax=2, n0max=2, max_steps=3, max_levels=3 if tier == "quick" else 4,
-                           disparities=(None, 1, 2), bdspecs_mode="any", containers=("set",)))
+    dims = (1, 1, 2) if tier == "quick" else (1, 1, 2, 2, 3)
+    dim0 = draw(st.sampled_from(dims))
+    if dim0 == 1:
+        # 1D is cheap: deeper hierarchies (5 levels) on larger coarse meshes, so that a finite disparity d >= 2 has room to
+        # matter (a level-l cell whose level-(l-d) neighbourhood is still unrefined needs l >= 2, i.e. >= 4 levels for d = 2)
+        spec = draw(gh.history(dims=(1,), pmin=1, pmax=3, n0max=4, max_steps=5, max_levels=5,
+                               disparities=(None, 1, 2, 2, 3), bdspecs_mode="any", containers=("set",)))
+    else:
+        spec = draw(gh.history(dims=(dim0,), pmin=1, pmax=2, n0max=2, max_steps=3, max_levels=3 if tier == "quick" else 4,
+                               disparities=(None, 1, 2), bdspecs_mode="any", containers=("set",)))
     if spec["dim"] == 3:
         # keep the level-wise reference assembly affordable: p = 1, <= 3 levels, <= 2 coarse cells per direction
         spec["max_levels"] = 3
